@@ -22,6 +22,8 @@ type c07Params struct {
 	// SetupHandle: passing iterations with id%3==0 mark failure on the handle captured in setup, which is not
 	// their own; they and every other iteration still pass or fail by their own plan
 	SetupHandle bool   `json:"setup_handle,omitempty"`
+	// Timed: every second iteration performs its behaviour inside a t.Time(...) stage
+	Timed bool `json:"timed,omitempty"`
 	Desc        string `json:"desc"`
 }
 
@@ -39,7 +41,7 @@ func c07Plan(seed uint64, id uint64, kinds []int) int {
 func init() {
 	core.Register(&core.Property{
 		ID: "C07",
-		Rule: "whole runs (users and rate-driven modes, limit N so that ids 1..N all run) whose body behaviour is planned per iteration id: pass or one of 18 failing behaviours (every failure API, failed assert/require, panics with error/string/int/struct/nil values, runtime errors, an error with a permissive Is method). " +
+		Rule: "whole runs (users and rate-driven modes, limit N so that ids 1..N all run) whose body behaviour is planned per iteration id: pass or one of 25 failing behaviours (every failure API incl. Error(nil)/Fatal(nil) and FailNow/require raised through the handle captured in setup, failed assert/require, behaviours inside t.Time stages, a disabled logger, panics with error/string/int/struct/nil values, runtime errors, an error with a permissive Is method). " +
 			"Oracles: result and metric counts equal the plan's ground truth, T.Failed() is false at every body entry, process and workers survive (cyclic-barrier rounds in users mode). non-trivial = the run contained >= 1 failing behaviour followed by a later iteration on the same handle; distinct = distinct (mode, behaviour set, barrier?, GOMAXPROCS) classes",
 		Assumptions: []string{"worker survival is bounded progress: a barrier round that does not fill within 10 s is a violation (the only thing that can be missing is a worker that stopped taking work)"},
 		Gen: func(tier string, seed uint64) []core.Case {
@@ -121,6 +123,40 @@ func init() {
 				qp.Spec.QuietLogger, qp.Spec.Verbose = true, true
 				qp.Desc += " quiet-logger+verbose"
 				last.P = core.MustJSON(qp)
+			}
+			// one behaviour per case for the failure APIs that log, with the logger disabled (a mixed plan of 20+
+			// behaviours over a dozen iterations may not contain the one that matters)
+			for _, kd := range []int{engine.BError, engine.BErrorf, engine.BFatal, engine.BFatalf, engine.BAssert, engine.BRequire, engine.BOtherRequire} {
+				if tier == "quick" && kd == engine.BOtherRequire {
+					continue
+				}
+				add(modes[kd%len(modes)], []int{kd}, false, engine.BehaviourNames[kd])
+				last := &cs[len(cs)-1]
+				var qp c07Params
+				last.Params(&qp)
+				qp.Spec.QuietLogger, qp.Spec.Verbose = true, true
+				qp.Desc += " quiet-logger+verbose"
+				last.P = core.MustJSON(qp)
+			}
+			// behaviours performed inside a t.Time(...) stage
+			nt := 6
+			if tier == "thorough" {
+				nt = 40
+			}
+			for k := 0; k < nt; k++ {
+				kinds, name := all, "all"
+				if k%2 == 0 {
+					// the non-stopping marks one at a time
+					kd := []int{engine.BFail, engine.BError, engine.BErrorf, engine.BAssert}[(k/2)%4]
+					kinds, name = []int{kd}, engine.BehaviourNames[kd]
+				}
+				add(modes[k%len(modes)], kinds, false, name)
+				last := &cs[len(cs)-1]
+				var tp c07Params
+				last.Params(&tp)
+				tp.Timed = true
+				tp.Desc += " inside-t.Time"
+				last.P = core.MustJSON(tp)
 			}
 			// a body that marks failure through the handle it captured in setup: not a mark on any iteration
 			nsh := 4
@@ -217,7 +253,12 @@ func c07Once(c *core.Case, o *core.Outcome, p c07Params, reg *scenarios.Scenario
 	reuseAfterFailure := 0
 	arrivedAtStall := 0
 	setupHandleMarks := 0
+	if p.Timed {
+		metrics.Init(true) // T.Time records through the process-wide instance
+	}
+	defer engine.OtherHandle.Store(nil)
 	scenario := func(setupT *f1testing.T) f1testing.RunFn {
+		engine.OtherHandle.Store(setupT)
 		return func(t *f1testing.T) {
 			defer k.Enter(t)()
 			id := engine.IDOf(t)
@@ -253,6 +294,10 @@ func c07Once(c *core.Case, o *core.Outcome, p c07Params, reg *scenarios.Scenario
 					engine.Behave(t, kind)
 					engine.SpanSleep(id)
 				}
+				return
+			}
+			if p.Timed && id%2 == 0 {
+				t.Time("stage", func() { engine.Behave(t, kind) })
 				return
 			}
 			engine.Behave(t, kind)
@@ -321,7 +366,7 @@ func c07Once(c *core.Case, o *core.Outcome, p c07Params, reg *scenarios.Scenario
 		if len(p.Kinds) == 1 {
 			name = engine.BehaviourNames[p.Kinds[0]]
 		}
-		o.Sig("mode=%s:kinds=%s:barrier=%v:procs=%d:setuphandle=%v", p.Spec.Mode, name, p.Barrier, c.Procs, p.SetupHandle)
+		o.Sig("mode=%s:kinds=%s:barrier=%v:procs=%d:setuphandle=%v:timed=%v:quiet=%v", p.Spec.Mode, name, p.Barrier, c.Procs, p.SetupHandle, p.Timed, p.Spec.QuietLogger)
 	}
 	o.Sample = map[string]any{"case": p.Desc, "plan": kindsDesc, "result_success": su, "result_failed": fa, "reuse_after_failure": reuseAfterFailure, "barrier_rounds": bar.rounds}
 	return ret
